@@ -6,6 +6,7 @@ from .. import regexlang as R
 from ..core import Undecided, node_text
 from ..idioms import is_name, negated
 from ..model import call_name, const_value, dotted, is_none, names_in, walk_no_nested, NOCONST
+from ..snippet import alpha_equal, contains_stmts, contains_expr
 
 
 # ------------------------------------------------------------------------------------------------ header
@@ -271,23 +272,14 @@ def rule_va_index(cx, rep, port):
             okk = ('prefix' in k and 'field_num' in k)
             rep.decide(okk, fname + ' key', stores[0], 'keyed by the variable spelling (prefix + N)', 'the variable map key is not built from prefix and N')
     sg = p.func(mod, 'safe_get')
-    rets = [r for r in walk_no_nested(sg) if isinstance(r, ast.Return)]
-    okg = False
-    if len(rets) == 1 and isinstance(rets[0].value, ast.IfExp):
-        e = rets[0].value
-        okg = node_text(e.test) == 'idx < len(record)' and node_text(e.body) == 'record[idx]' and is_none(e.orelse)
-    rep.decide(okg, 'safe_get', sg, 'record[idx] if idx < len(record) else None', 'safe_get is no longer "record[idx] if idx < len(record) else None" (`{}`)'.format(node_text(rets[0].value) if rets else ''))
+    okg = alpha_equal(sg, "def safe_get(record, idx):\n    return record[idx] if idx < len(record) else None")
+    rep.decide(okg, 'safe_get', sg, 'record[idx] if idx < len(record) else None', 'safe_get is no longer equivalent to "record[idx] if idx < len(record) else None" (`{}`)'.format(node_text(sg.body[-1], 120)))
     ss = p.func(mod, 'safe_set')
-    t = node_text(ss, 600).replace(' ', '')
-    if port == 'py':
-        oks = 'try:record[idx]=valueexceptIndexError:raiseInternalBadFieldError(idx)' in t
-    else:
-        oks = 'ifidx<len(record):record[idx]=valueelse:raiseInternalBadFieldError(idx)' in t
-    rep.decide(oks, 'safe_set', ss, 'assignment within the record, otherwise the bad-field error with the index', 'safe_set no longer assigns within the record and raises InternalBadFieldError(idx) beyond it')
+    oks = alpha_equal(ss, "def safe_set(record, idx, value):\n    try:\n        record[idx] = value\n    except IndexError:\n        raise InternalBadFieldError(idx)") or alpha_equal(ss, "def safe_set(record, idx, value):\n    if idx < len(record):\n        record[idx] = value\n    else:\n        raise InternalBadFieldError(idx)") or alpha_equal(ss, "def safe_set(record, idx, value):\n    if not idx < len(record):\n        raise InternalBadFieldError(idx)\n    record[idx] = value")
+    rep.decide(oks, 'safe_set', ss, 'assignment within the record, otherwise the bad-field error with the index', 'safe_set no longer assigns within the record and raises InternalBadFieldError(idx) for every index beyond it (`{}`)'.format(node_text(ss, 200)))
     sj = p.func(mod, 'safe_join_get')
-    t = node_text(sj, 600).replace(' ', '')
-    okj = ('try:returnrecord[idx]exceptIndexError:raiseInternalBadFieldError(idx)' in t) if port == 'py' else ('ifidx<len(record):returnrecord[idx]raiseInternalBadFieldError(idx)' in t)
-    rep.decide(okj, 'safe_join_get', sj, 'join key field or the bad-field error', 'safe_join_get changed')
+    okj = alpha_equal(sj, "def safe_join_get(record, idx):\n    try:\n        return record[idx]\n    except IndexError:\n        raise InternalBadFieldError(idx)") or alpha_equal(sj, "def safe_join_get(record, idx):\n    if idx < len(record):\n        return record[idx]\n    raise InternalBadFieldError(idx)")
+    rep.decide(okj, 'safe_join_get', sj, 'join key field or the bad-field error', 'safe_join_get no longer returns the field or raises InternalBadFieldError(idx) beyond the record')
     gi = p.func(mod, 'generate_init_statements')
     tmpl = [c.value if isinstance(c, ast.Constant) else const_value(c) for c in ast.walk(gi) if isinstance(c, (ast.Constant, ast.JoinedStr))]
     tm = [t for t in tmpl if isinstance(t, str)]
